@@ -172,7 +172,7 @@ fn src_cell<'a>(src: Src, cx: &Cx<'a>) -> Option<&'a RefCell<Option<Cc<Node>>>> 
     match src {
         Src::R(i) => wd.r.get(i as usize),
         Src::G(i) => wd.g.get(i as usize),
-        Src::MeT(i) => cx.me().and_then(|n| n.t.get(i as usize)),
+        Src::MeT(i) => cx.me().and_then(|n| n.tslot(i as usize)),
         Src::MeH(i) => cx.me().and_then(|n| n.h.get(i as usize)),
         Src::Cap => match cx {
             #[cfg(feature = "cleaners")]
@@ -285,7 +285,7 @@ fn store(dst: Dst, cx: &Cx, new: Option<Cc<Node>>, new_id: Option<u32>) {
             (old, old_id)
         }
         Dst::Slot(own, hid, i) => {
-            let i = i as usize % if hid { NH } else { NT };
+            let i = i as usize % if hid { NH } else { NTM };
             let (Some(oid), Some(p)) = (own_id(own, cx), own_node(own, cx)) else {
                 if let Some(id) = new_id {
                     oracle::lost_holder(wd, id);
@@ -295,7 +295,7 @@ fn store(dst: Dst, cx: &Cx, new: Option<Cc<Node>>, new_id: Option<u32>) {
                 return;
             };
             let n = unsafe { &*p };
-            let cell = if hid { &n.h[i] } else { &n.t[i] };
+            let cell = if hid { &n.h[i] } else { n.tslot(i).unwrap() };
             let old = cell.replace(new);
             let mut m = wd.m.borrow_mut();
             let o = m.obj_mut(oid).unwrap();
